@@ -1,0 +1,20 @@
+//go:build verif
+
+package switchr
+
+import (
+	"github.com/mycoria/mycoria/frame"
+	"github.com/mycoria/mycoria/mgr"
+)
+
+// VerifHandleFrame synchronously runs the switch handler on one frame, exactly
+// like one iteration of the switch worker. A recovered panic is returned as an
+// error wrapping mgr.ErrWorkerPanic.
+// Verification hook: only compiled with the "verif" build tag.
+func (s *Switch) VerifHandleFrame(f frame.Frame) (handleErr error, panicErr error) {
+	panicErr = s.mgr.Do("verif switch", func(_ *mgr.WorkerCtx) error {
+		handleErr = s.handleFrame(f)
+		return nil
+	})
+	return handleErr, panicErr
+}
